@@ -1,44 +1,45 @@
 import IsoMdl.Props.C03
 /-
 C04 — Elements reported as issuer-authenticated are bound to the signed MSO.
+Holds since the `fix:` commit that added `issuer_data_authentication` (ISO 18013-5 9.1.2.4 digest
+and docType comparison) to the reader; before it the reader verified only the COSE signature and
+`{ honest with digestsMatch := false }` was a counterexample (recorded under "fixed" in
+known_findings.json).
 -/
 namespace IsoMdl.ReaderAuth
 open IsoMdl IsoMdl.Cose
 
-/-- FULL-STRENGTH statement: whenever issuer authentication is reported Valid, every reported
-element's digest matches the MSO entry and the MSO docType equals the document's docType. -/
-def IssuerValidBinds : Prop :=
-  ∀ f : Facts, (handleResponse f).panics = false → (handleResponse f).issuer = .valid →
-    f.digestsMatch = true ∧ f.docTypeMatches = true
+/-- FULL-STRENGTH: whenever issuer authentication is reported Valid, the MSO decoded from the
+SIGNED payload has the document's docType and every disclosed item hashes, under the MSO's digest
+algorithm, to the valueDigests entry for its namespace and digestID. -/
+theorem C04_issuer_valid_binds (f : Facts) (hnp : (handleResponse f).panics = false)
+    (h : (handleResponse f).issuer = .valid) :
+    f.msoDecodes = true ∧ f.digestsMatch = true ∧ f.docTypeMatches = true := by
+  obtain ⟨_, _, _, _, _, _, _, _, _, _, _, _, _, _, hm, hdt, hdg⟩ := (C03_issuer_valid_iff f hnp).mp h
+  exact ⟨hm, hdg, hdt⟩
 
-/-- It is FALSE of the code as modelled: the reader verifies the COSE signature over the MSO and
-never compares the disclosed items or the docType with it.  Witness: an otherwise authentic
-response whose disclosed item was altered after issuance by the holder (who re-signs device
-authentication and re-encrypts). -/
-theorem C04_full_fails : ¬ IssuerValidBinds := by
-  intro h
-  have := h { honest with digestsMatch := false } (by decide) (by decide)
-  simp at this
+/-- An altered value / identifier / random / digestID, a moved or injected item (some digest no
+longer matches) or a mismatching docType is never reported as issuer-authenticated. -/
+theorem C04_altered_not_valid (f : Facts) (hnp : (handleResponse f).panics = false)
+    (h : f.digestsMatch = false ∨ f.docTypeMatches = false) : (handleResponse f).issuer ≠ .valid := by
+  intro hv
+  obtain ⟨_, h1, h2⟩ := C04_issuer_valid_binds f hnp hv
+  rcases h with h | h <;> simp_all
 
-/-- the same for a docType mismatch between document and MSO -/
-theorem C04_full_fails_doctype : ¬ (∀ f : Facts, (handleResponse f).panics = false →
-    (handleResponse f).issuer = .valid → f.docTypeMatches = true) := by
-  intro h
-  have := h { honest with docTypeMatches := false } (by decide) (by decide)
-  simp at this
+/-- … and it is reported with an error entry (from C03). -/
+theorem C04_altered_has_error (f : Facts) (hnp : (handleResponse f).panics = false)
+    (h : f.digestsMatch = false ∨ f.docTypeMatches = false) : (handleResponse f).errors ≠ [] :=
+  C03_nonvalid_has_error f hnp (C04_altered_not_valid f hnp h)
 
-/-- What does hold (partial): the outcome does not depend on the two ignored facts at all, i.e.
-the reported status says nothing about them — precisely the defect. -/
-theorem C04_outcome_ignores_binding_partial (f : Facts) (a b : Bool) :
-    handleResponse { f with digestsMatch := a, docTypeMatches := b } = handleResponse f := by
-  unfold handleResponse deviceAuthentication issuerAuthentication
-  rfl
-
-/-- … while the signature over the MSO itself IS checked (C03): Valid implies the primitive
-accepted the issuer signature over the attached MSO bytes. -/
-theorem C04_mso_signature_checked_partial (f : Facts) (hnp : (handleResponse f).panics = false)
+/-- the signature over the MSO itself is checked as well -/
+theorem C04_mso_signature_checked (f : Facts) (hnp : (handleResponse f).panics = false)
     (h : (handleResponse f).issuer = .valid) : f.issuerSigAccepts = true ∧ f.issuerPayloadAttached = true := by
-  obtain ⟨_, _, _, _, _, _, _, _, _, _, _, hp, _, ha⟩ := (C03_issuer_valid_iff f hnp).mp h
+  obtain ⟨_, _, _, _, _, _, _, _, _, _, _, hp, _, ha, _⟩ := (C03_issuer_valid_iff f hnp).mp h
   exact ⟨ha, hp⟩
+
+/-- non-vacuity: the former counterexamples are now Invalid with an issuer-authentication error -/
+example : (handleResponse { honest with digestsMatch := false }) = ⟨.invalid, .valid, [.issuerAuth], true, false⟩ := by decide
+example : (handleResponse { honest with docTypeMatches := false }).issuer = .invalid := by decide
+example : (handleResponse honest).issuer = .valid := by decide
 
 end IsoMdl.ReaderAuth
